@@ -409,6 +409,11 @@ def lsLoop (o : NumOps α) (c : Consts α) (sparse : Bool) (dir grad mOld x : Li
       else lsLoop o c sparse dir grad mOld x Pi R fOld fuel (count + 1) (step * c.stepRed)
         ⟨mNew, some fNew, count + 1⟩
 
+/-- `f_new > f_old`, where `none` is `np.inf`. -/
+def lsWorse (o : NumOps α) (fOld : α) : Option α → Bool
+  | none => true
+  | some f => o.lt fOld f
+
 /-- `tt_linesearch_prowsubprob(direction, grad, model_old, 1, 1/2, 10, 1e-4, …)`: the new
 row.  (`f_1`, `num_evals` feed only the direction service / `fnEvals`.)
 The start value of the accumulator is never returned when `max_steps ≥ 1` (validated). -/
@@ -417,10 +422,8 @@ def lineSearch (o : NumOps α) (c : Consts α) (sparse : Bool) (dir grad mOld x 
   let fOld := rowNegLL o sparse x Pi mOld R
   let r := lsLoop o c sparse dir grad mOld x Pi R fOld c.maxSteps 1 c.stepLen
     ⟨(List.range R).map fun r => project o.gt0 (vget mOld r), none, 1⟩
-  let worse := match r.fNew with
-    | none => true
-    | some f => o.lt fOld f
-  if (decide (c.maxSteps ≤ r.count) && worse) || o.lt (sumOver R fun k => vget r.mNew k) c.smallStepTol then
+  if (decide (c.maxSteps ≤ r.count) && lsWorse o fOld r.fNew) ||
+      o.lt (sumOver R fun k => vget r.mNew k) c.smallStepTol then
     (List.range R).map fun k => project o.gt0 (lsFallback (vget mOld k) (vget phi k))
   else r.mNew
 
@@ -629,8 +632,8 @@ def finish (o : NumOps α) (sortPerm : List α → List Nat) (X : Data α) (M : 
 
 /-- Argument checks of `cp_apr` (the asserts) together with the inputs on which the solvers
 themselves fail: a 1-way dense tensor (Khatri-Rao of nothing), a sparse tensor without
-stored entry (`subs[:, n]` of an empty array), zero extents, `maxiters = 0` (`iteration`
-unbound), `maxinneriters = 0` for pdnr / pqnr (`i` unbound), `max_steps = 0`. -/
+stored entry (`subs[:, n]` of an empty array), zero extents or no mode at all (`np.max` of an
+empty array), `maxiters = 0` (`iteration` unbound), `maxinneriters = 0` for pdnr / pqnr (`i` unbound), `max_steps = 0`. -/
 def validate (o : NumOps α) (c : Consts α) (cfg : Cfg α) (alg : Alg) (X : Data α) (init : Ktensor α) : Bool :=
   let shape := X.shape
   decide (0 < cfg.rank)
@@ -648,6 +651,7 @@ def validate (o : NumOps α) (c : Consts α) (cfg : Cfg α) (alg : Alg) (X : Dat
   && decide (0 < cfg.maxiters)
   && (alg == .mu || decide (0 < cfg.maxinner))
   && decide (0 < c.maxSteps)
+  && decide (0 < shape.length)
 
 /-- State after `k` outer iterations of MU. -/
 def muStates (o : NumOps α) (cfg : Cfg α) (X : Data α) (init : Ktensor α) (k : Nat) :
